@@ -341,13 +341,14 @@ func runServerScenario(seed int64, originFocus bool) *scenario {
 	origin := ""
 	hasOrigin := r.Intn(2) == 0 || originFocus
 	if hasOrigin {
-		origin = originFor(g, host, breakWhat == 5 || (originFocus && r.Intn(2) == 0))
+		origin = originFor(g, host, breakWhat == 5 || (originFocus && r.Intn(2) == 0) || (!originFocus && r.Intn(8) == 0))
 		set("Origin", []string{origin})
 	}
 	// subprotocol offers
 	var offers []string
 	if r.Intn(2) == 0 {
-		offers = [][]string{{"chat"}, {"chat, superchat"}, {" chat ,mqtt"}, {"a,b,c"}, {"chat", "ignored-second-line"}, {""}, {","}, {"Chat"}}[r.Intn(8)]
+		offers = [][]string{{"chat"}, {"chat, superchat"}, {" chat ,mqtt"}, {"a,b,c"}, {"chat", "ignored-second-line"}, {""}, {","}, {"Chat"},
+			{"chat/2"}, {"chat superchat"}, {"mqtt=3.1.1, x2"}, {"chat@v2,superchat.v1"}, {"xchat, chatx, cha"}, {"chat;q=1"}}[r.Intn(14)]
 		set("Sec-Websocket-Protocol", offers)
 	}
 	if exts := g.extOffer(); exts != nil && r.Intn(2) == 0 {
@@ -497,6 +498,29 @@ func runServerScenario(seed int64, originFocus bool) *scenario {
 	sc.emit(line, fmt.Sprintf("acc sub=%s z=%d reuse=%d wrap=%d rsize=%d wbuf=%d fixed=%s extra=%s",
 		hx([]byte(c.Subprotocol())), b2i(nego), b2i(reuse), b2i(wrap), rsize, wsz, hexList(lines[:nfixed]), hexList(extra)))
 	serverAcceptOracle(sc, t, c, hdr, method, key, hasOrigin, origin, host, u, rh, offers, nego, w)
+	if hasOrigin && u.CheckOrigin == nil {
+		// the decision depends on this request only: the same Origin presented to another host is refused
+		func() {
+			defer func() {
+				if p := recover(); p != nil {
+					sc.violate("Upgrade panicked on the follow-up request: %v", p)
+				}
+			}()
+			t2 := newTConn(&evlog{})
+			t2.quiet = true
+			w2 := &fakeRW{hdr: http.Header{}, conn: t2}
+			w2.brw = bufio.NewReadWriter(bufio.NewReader(t2), bufio.NewWriterSize(t2, 4096))
+			req2 := &http.Request{Method: method, Host: "elsewhere.invalid", Header: hdr.Clone(), URL: &url.URL{Path: "/ws"}, Proto: "HTTP/1.1", ProtoMajor: 1, ProtoMinor: 1}
+			c2, err2 := u.Upgrade(w2, req2, nil)
+			if err2 == nil {
+				sc.violate("Origin %q was accepted for Host elsewhere.invalid after it had been accepted for Host %q (the decision must depend on the request alone)", origin, host)
+				c2.Close()
+			} else if w2.status != 403 {
+				sc.violate("follow-up request with a foreign Origin refused with %d, expected 403", w2.status)
+			}
+			sc.tag("origin:followup")
+		}()
+	}
 	return sc
 }
 
@@ -507,7 +531,10 @@ func originFor(g *hGen, host string, bad bool) string {
 		return scheme + g.caseVar(host) + g.pick("", "/", "/path?q=1")
 	}
 	h := host
-	switch r.Intn(14) {
+	switch r.Intn(15) {
+	case 14:
+		// white space net/http neither trims nor rejects, alone or around / between origins
+		return g.pick("\u00a0", "\u2028\u3000", "\u0085", "\u3000", "\u00a0"+scheme+host, scheme+host+"\u00a0", scheme+host+" http://evil.example", "http://evil.example "+scheme+host, "\u00a0 \u00a0")
 	case 12, 13:
 		// a look-alike that differs from the host only in the high bit of some bytes (or by a
 		// multi-byte character whose bytes alias two ASCII bytes modulo 128)
@@ -548,7 +575,7 @@ func originFor(g *hGen, host string, bad bool) string {
 			h = host + "ſ"
 		}
 	case 9:
-		return g.pick("null", "://bad", "http://[::1", "%zz", "http://a b/", "",
+		return g.pick("null", "://bad", "http://[::1", "%zz", "http://a b/", "", "\u00a0", "\u2028\u3000", " \u0085 ", "\u00a0http://"+host, "\t", " ",
 			// foreign or unparsable origins whose tail spells "://<host>"
 			"https://evil.example/x://"+host, "https://evil.example:port/://"+host, "://"+host, "x://evil.example/?://"+host, "https://evil.example#://"+host)
 	case 10:
@@ -1077,9 +1104,10 @@ func runClientScenario(seed int64) *scenario {
 			v := g.pick("v1", "http://example.com", "a=b; c=d", "8", "other.example", "chat2", "permessage-deflate")
 			if k == "Host" {
 				v = g.pick("override.example", "h2.example:81", "[::1]:7")
+				k = g.pick("Host", "Host", "host", "HOST", "hOsT")
 			}
 			caller[k] = []string{v}
-			if r.Intn(6) == 0 && k != "User-Agent" && k != "Host" {
+			if r.Intn(6) == 0 && k != "User-Agent" && !strings.EqualFold(k, "Host") {
 				caller[k] = append(caller[k], "second")
 			}
 			corder = append(corder, k)
@@ -1097,7 +1125,7 @@ func runClientScenario(seed int64) *scenario {
 		rs.connection = [][]string{nil, {"keep-alive"}, {"keep-alive, Upgrade"}, {"upgrades"}, {"close", "upgrade"}, {"xupgrade"},
 			{"keep-alive,\u00a0Upgrade"}, {"\u3000upgrade"}, {"upgrade\u00a0"}}[r.Intn(9)]
 	case 3:
-		rs.accept = g.pick("wrong", "stale", "otherkey", "missing", "trunc", "lower", "upper", "swap", "pad", "twice")
+		rs.accept = g.pick("wrong", "stale", "otherkey", "missing", "trunc", "lower", "upper", "swap", "pad", "twice", "noncanon", "noncanon", "nopad")
 	case 4:
 		rs.body = []int{1, 100, 1023, 1024, 1025, 3000}[r.Intn(6)]
 		rs.status = "400 Bad Request"
@@ -1162,7 +1190,7 @@ func runClientScenario(seed int64) *scenario {
 		case "trunc":
 			a := acceptFor(sentKey)
 			sb.WriteString("Sec-WebSocket-Accept: " + a[:len(a)-1] + "\r\n")
-		case "lower", "upper", "swap", "pad", "twice":
+		case "lower", "upper", "swap", "pad", "twice", "noncanon", "nopad":
 			// near misses of the right digest: base64 is case-sensitive, the value is not a token list
 			a := acceptFor(sentKey)
 			v := a
@@ -1186,6 +1214,19 @@ func runClientScenario(seed int64) *scenario {
 				v = string(bb)
 			case "pad":
 				v = a + "="
+			case "nopad":
+				v = strings.TrimRight(a, "=")
+			case "noncanon":
+				// another base64 spelling of the same 20 bytes: the last character before '=' carries
+				// two unused bits
+				const alpha = "ABCDEFGHIJKLMNOPQRSTUVWXYZabcdefghijklmnopqrstuvwxyz0123456789+/"
+				bb := []byte(a)
+				if i := len(bb) - 2; i >= 0 && bb[len(bb)-1] == '=' {
+					if k := strings.IndexByte(alpha, bb[i]); k >= 0 {
+						bb[i] = alpha[k^(1+g.rng.Intn(3))]
+					}
+				}
+				v = string(bb)
 			case "twice":
 				v = a + ", " + a
 			}
@@ -1342,8 +1383,11 @@ func clientRequestOracle(sc *scenario, rlines []string, hostHdr string, pu *url.
 		sc.violate("request line %q, expected GET %s HTTP/1.1", rlines[0], want)
 	}
 	wantHost := pu.Host
-	if caller != nil && len(caller["Host"]) > 0 {
-		wantHost = caller["Host"][0]
+	for ck, cv := range caller {
+		// header names are case-insensitive: an override counts under any spelling of the key
+		if strings.EqualFold(ck, "Host") && len(cv) > 0 {
+			wantHost = cv[0]
+		}
 	}
 	if hostHdr != wantHost {
 		sc.violate("Host header %q, expected %q", hostHdr, wantHost)
